@@ -51,6 +51,14 @@ func NearMiss(t *rapid.T, v jv.Val) jv.Val {
 		return Pick(t, "nm", []jv.Val{jv.VBool(!v.B), jv.VInt(0), jv.VInt(1), jv.VStr(fmt.Sprint(v.B)), jv.VNull()})
 	case jv.Num:
 		alts := []jv.Val{jv.VStr(v.JSON()), jv.VRat(new(big.Rat).Add(v.R, big.NewRat(1, 1))), jv.VRat(new(big.Rat).Neg(v.R)), jv.VRat(new(big.Rat).Add(v.R, big.NewRat(1, 1000000))), jv.VBool(v.R.Sign() != 0), jv.VNull(), jv.VArr([]jv.Val{v})}
+		// a difference in the 20th significant digit, and the same digits at a
+		// magnitude outside the binary64 range: still different numbers
+		if d, ok := jv.SigDigits(v.R); ok && d <= 12 && v.R.Sign() != 0 {
+			eps := new(big.Rat).SetFrac(big.NewInt(1), new(big.Int).Exp(big.NewInt(10), big.NewInt(20), nil))
+			alts = append(alts, jv.VRat(new(big.Rat).Add(v.R, new(big.Rat).Mul(v.R, eps))))
+			tiny := new(big.Rat).SetFrac(big.NewInt(1), new(big.Int).Exp(big.NewInt(10), big.NewInt(400), nil))
+			alts = append(alts, jv.VRat(new(big.Rat).Mul(v.R, tiny)), jv.VRat(new(big.Rat).Quo(v.R, tiny)))
+		}
 		return Pick(t, "nm", alts)
 	case jv.Str:
 		alts := []jv.Val{jv.VStr(v.S + " "), jv.VStr(v.S + "́"), jv.VArr([]jv.Val{v}), jv.VNull()}
